@@ -33,7 +33,8 @@ GL_FLAGS = [('GE', G.GLOBSTAR | G.EXTGLOB), ('G', G.GLOBSTAR), ('GENS', G.GLOBST
             ('GEB', G.GLOBSTAR | G.EXTGLOB | G.BRACE), ('GEDZ', G.GLOBSTAR | G.EXTGLOB | G.DOTGLOB | G.NODOTDIR),
             ('GEW', G.GLOBSTAR | G.EXTGLOB | G.FORCEWIN), ('LEX', G.GLOBSTARLONG | G.EXTGLOB | G.MATCHBASE),
             ('GEOK', G.GLOBSTAR | G.EXTGLOB | G.NODIR), ('GEP', G.GLOBSTAR | G.EXTGLOB | G.REALPATH),
-            ('GET', G.GLOBSTAR | G.EXTGLOB | G.GLOBTILDE), ('GER', G.GLOBSTAR | G.EXTGLOB | G.RAWCHARS)]
+            ('GET', G.GLOBSTAR | G.EXTGLOB | G.GLOBTILDE), ('GER', G.GLOBSTAR | G.EXTGLOB | G.RAWCHARS),
+            ('GEWC', G.GLOBSTAR | G.EXTGLOB | G.FORCEWIN | G.CASE)]
 
 
 def enc(x, b):
@@ -157,6 +158,7 @@ MALFORMED = [  # (pattern, explicitly escaped literal spelling)   - fnmatch mode
 ]
 MALFORMED_NOSPLIT = [('a|b', 'a\\|b'), ('|', '\\|'), ('a|', 'a\\|')]
 EMPTY_LANG = ['[b-a]', 'x[b-a]', '[b-a]x']           # a lone reversed range matches nothing
+ANYCHAR = [('[!b-a]', '?'), ('[^b-a]', '?'), ('x[!9-0]', 'x?'), ('[!b-a9-0]', '?'), ('@([!b-a])', '@(?)')]   # negated: any one character
 BASH_PATS = ['[', '[a', 'a[', '[]', '[!', '[!]', '@(a', 'a)', ')', 'a(', '[b-a]', 'x[b-a]', '[]a]', 'a|b', '|', '[[', '[a-', '[]a',
              '@(a|b)', '?(a)b', '*(a)', '+(a|b)', '[!a]', '[a-b]', 'a*', '*a', '?', '\\[', '\\*', '[\\]]', '!(a)', '!(a|b)b']
 BASH_NAME_ALPHA = 'ab[]()|!@'
@@ -178,6 +180,18 @@ def check_malformed(res):
                 res.n['states'] += c.states
                 res.n['distinct_nontrivial'] += 1
                 res.outcomes.add('literal-meaning' if c.witness is None else 'not-literal')
+                if c.witness is not None:
+                    res.add_violation(ID, run.viol('malformed-not-literal', dict(inp, name=c.witness), {'match': c.accs[1]}, {'match': c.accs[0]}))
+        for p, q in ANYCHAR:
+            for isb in (False, True):
+                res.n['evaluations'] += 1
+                inp = {'mode': 'fn', 'pattern': enc(p, isb), 'escaped_spelling': q, 'flags': fname}
+                try:
+                    c = langcmp.equal(F.compile(enc(p, isb), flags=fl | F.DOTMATCH), F.compile(enc(q, isb), flags=fl | F.DOTMATCH), isb)
+                except Exception as e:  # noqa: BLE001
+                    res.add_violation(ID, run.viol('crash', dict(inp, call='compile'), 'compiles', {'exc': type(e).__name__, 'msg': str(e)[:80]}))
+                    continue
+                res.n['distinct_nontrivial'] += 1
                 if c.witness is not None:
                     res.add_violation(ID, run.viol('malformed-not-literal', dict(inp, name=c.witness), {'match': c.accs[1]}, {'match': c.accs[0]}))
         for p in EMPTY_LANG:
@@ -209,9 +223,10 @@ def check_malformed(res):
 
 # ---------------------------------------------------------------- generators
 
-REGEXY = ['(?#)', '(?:', '(?i)', '\\Z', '$', '^', '{1,2}', '(?P<n>', '#', '(?=', '\\b', '&&', '~~', '||', '--', '[:alpha:]', '[.a.]',
+REGEXY = ['(', ')', '+', 'se[rver', 'sh(are', 'a+', 'b|c', '(?#)', '(?:', '(?i)', '\\Z', '$', '^', '{1,2}', '(?P<n>', '#', '(?=', '\\b', '&&', '~~', '||', '--', '[:alpha:]', '[.a.]',
           '[=a=]', '\\', ']', '[', '-]', '^]', '!]', '\\]']
-TEMPLATES = ['[%s]', '[!%s]', 'a%s', '%s*', '@(%s)', '[a%s', '%s]', '[[:alpha:]%s]', '!(%s)', '{%s,a}', '[%sa-b]', '[a-%s]']
+TEMPLATES = ['[%s]', '[!%s]', 'a%s', '%s*', '@(%s)', '[a%s', '%s]', '[[:alpha:]%s]', '!(%s)', '{%s,a}', '[%sa-b]', '[a-%s]',
+             '//%s/b/*', '//a/%s/*', '//?/%s/*', '//?/UNC/%s/b/*', 'c:/%s', '//h/s%s/x']
 
 
 def mutations():
@@ -321,6 +336,12 @@ def replay(v):
     inp = v['input']
     r = run.ChunkResult()
     k = v['kind']
+    if k == 'crash' and inp.get('call') == 'compile' and 'escaped_spelling' in inp:
+        try:
+            F.compile(inp['pattern'], flags=F.EXTMATCH | F.DOTMATCH)
+            return {'violates': False, 'observed': 'compiles'}
+        except Exception as e:  # noqa: BLE001
+            return {'violates': True, 'observed': type(e).__name__}
     if k in ('malformed-not-literal', 'reversed-range-matches', 'bash-disagrees'):
         mod = G if inp['mode'] == 'glob' else F
         fl = 0
